@@ -460,7 +460,7 @@ const c19Rule = "struct types built with reflect.StructOf from a pool of 28 fiel
 	"funcs, arrays, interfaces with and without a union, Parseable/Capture/TextUnmarshaler types, recursive structs, structs without tags) " +
 	"plus static types (unexported fields, anonymous nested structs, left-recursive), with tags that are (a) token soup over the tag " +
 	"alphabet (incl. unknown identifiers, unterminated strings / chars / raw strings / comments, raw NUL bytes) cut into 1-3 fields, raw byte soup as the first or a later field's tag, (b) single-token insertions, " +
-	"deletions and replacements applied to valid renderings, (c) valid generated grammars and the repository's example grammars; whole-tag and parser:\"...\" forms; oracle: " +
+	"deletions and replacements applied to valid renderings (literals may look like operators: \"@\", \"(\", '?'), (c) valid generated grammars (one in 25 with a misspelt Elide option: must be rejected), static layered grammars (31 productions, 3^30 paths) and the repository's example grammars; whole-tag and parser:\"...\" forms; oracle: " +
 	"Build returns within the watchdog without panicking, exactly one of parser/error, a reference recogniser of the documented tag " +
 	"syntax decides 'must build' (valid syntax, known token types, simple capture targets) and 'must be rejected' (unknown token type, " +
 	"unclosed group/lookahead, modifier/capture/negation applied to nothing, empty alternative, no usable field); non-trivial = the tag " +
